@@ -418,7 +418,9 @@ def _impose(spec, cond, rng):
                                'kappa_v1': 0.005, 'kappa_v2': 0.005, 'alpha': 0.5, 'T_int': float(rng.uniform(150, 600))}
     elif cond == 'temperature-array':
         spec['temperature'] = {'kind': 'temparray', 'tp_array': [float(v) for v in np.sort(rng.uniform(300, 2000, 4))[::-1]],
-                               'reverse': False, 'p_points': None}
+                               'reverse': bool(rng.random() < 0.4), 'p_points': None}
+        if rng.random() < 0.4:
+            spec['temperature']['p_points'] = [float(v) for v in np.logspace(np.log10(spec['pmax']), np.log10(spec['pmin']), 4)]
     elif cond == 'temperature-file':
         spec['temperature'] = {'kind': 'tempfile', 'tp_array': [float(v) for v in np.sort(rng.uniform(300, 2000, 5))[::-1]],
                                'with_pressure': bool(rng.random() < 0.5)}
